@@ -460,3 +460,36 @@ Theorem Fcontrast_options_one_row :
   Tres ctheta v (eff_disp dc ds) * Tres ctheta v (eff_disp dc ds).
 Proof. intros. unfold g_Fcontrast1. apply F1res_is_T_squared; assumption. Qed.
 Print Assumptions Fcontrast_options_one_row.
+
+(* ================================================================== fixed effects: sums of any number of contrasts *)
+From NV.C06 Require Import ProofsFx.
+Close Scope R_scope.
+Open Scope Q_scope.
+(* (X1) for ANY number of sessions, with any subset of them null: the accumulation loop of
+   FMRILinearModel.contrast returns the left-to-right sum of ALL non-null session contrasts
+   (None when every session is null), and effect / variance / dof of a sum of k contrasts are
+   the k-fold sums of the summands' effects / variances / dofs. *)
+Theorem fixed_effects_is_sum_of_all_sessions :
+  forall sessions,
+  fixed_effects sessions = match non_null sessions with [] => None | c :: r => Some (c_sum c r) end /\
+  forall c r,
+  c_eff (c_sum c r) = fold_left vaddq (map c_eff r) (c_eff c) /\
+  c_var (c_sum c r) = fold_left maddq (map c_var r) (c_var c) /\
+  c_dof (c_sum c r) = fold_left Qplus (map c_dof r) (c_dof c).
+Proof.
+  intros sessions. split; [apply fixed_effects_is_sum|]. intros c r.
+  split; [apply c_sum_eff|]. split; [apply c_sum_var|apply c_sum_dof].
+Qed.
+Print Assumptions fixed_effects_is_sum_of_all_sessions.
+
+(* (X2) one row, one voxel: sum of k contrasts (e_i, v_i, d_i) = (sum e_i, sum v_i, sum d_i);
+   non-vacuity: three unit summands have dof 3, `first + last` has not. *)
+Theorem contrast_sum_scalar :
+  (forall x r, c_sum (c1 x) (map c1 r) =
+     mkC [fold_left Qplus (map (fun y => fst (fst y)) r) (fst (fst x))]
+         [[fold_left Qplus (map (fun y => snd (fst y)) r) (snd (fst x))]]
+         (fold_left Qplus (map snd r) (snd x))) /\
+  c_dof (c_sum (c1 (1, 1, 1)) [c1 (1, 1, 1); c1 (1, 1, 1)]) == 3 /\
+  ~ c_dof (c_add (c1 (1, 1, 1)) (c1 (1, 1, 1))) == 3.
+Proof. split; [exact c_sum_scalar|exact c_sum_three_not_first_plus_last]. Qed.
+Print Assumptions contrast_sum_scalar.
